@@ -21,6 +21,7 @@ func init() { register("C02", checkC02) }
 type retryCfg struct {
 	MaxRetries  int     `json:"max_retries"` // -1 unlimited
 	ViaAttempts bool    `json:"via_max_attempts"`
+	Overridden  bool    `json:"other_setter_called_first,omitempty"`
 	Handle      condSet `json:"handle"`
 	Abort       condSet `json:"abort"`
 	ReturnLast  bool    `json:"return_last_failure"`
@@ -42,6 +43,15 @@ func (s step) String() string { return fmt.Sprintf("(%d,%s)", s.Res, c02ErrNames
 
 func buildRetry(c retryCfg) retrypolicy.RetryPolicyBuilder[int] {
 	b := retrypolicy.Builder[int]()
+	// Overridden: the other setter was called first with a different bound; as with every builder method the later call
+	// decides (the two are documented as the same bound counted differently)
+	if c.Overridden {
+		if c.ViaAttempts {
+			b.WithMaxRetries(7)
+		} else {
+			b.WithMaxAttempts(vk.Pick2(c.MaxRetries, 9, -1))
+		}
+	}
 	if c.ViaAttempts {
 		if c.MaxRetries == -1 {
 			b.WithMaxAttempts(-1)
@@ -128,7 +138,7 @@ func retryExpect(c retryCfg, script []step) (stop int, how string, unjudged bool
 func genRetryCase(r *rand.Rand) (retryCfg, []step) {
 	handles := []condSet{{}, {}, {"E"}, {"R"}, {"I"}, {"E", "R"}, {"Tv"}, {"R", "I"}, {"E", "Tvp", "R"}, {"TT"}, {"EE2", "R"}, {"Es"}}
 	aborts := []condSet{{}, {}, {}, {"E"}, {"R"}, {"I"}, {"Tv"}, {"E", "R"}, {"TT2"}, {"EE"}, {"Es"}}
-	c := retryCfg{MaxRetries: vk.Pick(r, 0, 1, 2, 3, 5, -1), ViaAttempts: r.IntN(3) == 0, Handle: handles[r.IntN(len(handles))], Abort: aborts[r.IntN(len(aborts))], ReturnLast: r.IntN(2) == 0}
+	c := retryCfg{MaxRetries: vk.Pick(r, 0, 1, 2, 3, 5, -1), ViaAttempts: r.IntN(3) == 0, Overridden: r.IntN(4) == 0, Handle: handles[r.IntN(len(handles))], Abort: aborts[r.IntN(len(aborts))], ReturnLast: r.IntN(2) == 0}
 	n := c.MaxRetries + 3
 	if c.MaxRetries == -1 {
 		n = 8
